@@ -15,14 +15,24 @@ EXTENDS Integers, Sequences, FiniteSets, TLC
 
 VARIABLES chain,    \* Seq of [parent, id, body]
           snaps,    \* set of [ver, body]: snapshots currently stored (latest body per version)
-          ghost     \* number of ids consumed by versions that were never acknowledged
+          ghost,    \* number of ids consumed by versions that were never acknowledged
                     \* (only used to keep trace ids aligned; see AddVersionUncertain)
+          gone      \* ids of accepted versions the server no longer holds (docs/src/
+                    \* sync-protocol.md: versions covered by a snapshot may be discarded;
+                    \* the git backend does so after add_snapshot, src/server/gitsync cleanup)
 
-cvars == <<chain, snaps, ghost>>
+cvars == <<chain, snaps, ghost, gone>>
 
 Latest == IF chain = <<>> THEN 0 ELSE chain[Len(chain)].id
 
-CInit == chain = <<>> /\ snaps = {} /\ ghost = 0
+CInit == chain = <<>> /\ snaps = {} /\ ghost = 0 /\ gone = {}
+
+Ids == {chain[i].id : i \in DOMAIN chain}
+Pos(id) == IF id \in Ids THEN CHOOSE i \in DOMAIN chain : chain[i].id = id ELSE 0
+(* version id is covered by the stored snapshot s: s is for a version on the chain at or  *)
+(* after it, so a replica starting from s never asks for it                              *)
+CoveredBy(id, s) == Pos(id) >= 1 /\ Pos(s.ver) >= Pos(id)
+Covered(id) == \E s \in snaps : CoveredBy(id, s)
 
 Accepts(parent) == chain = <<>> \/ parent = Latest
 
@@ -30,7 +40,7 @@ Accepts(parent) == chain = <<>> \/ parent = Latest
 AddVersionOk(parent, body, newid) ==
   /\ Accepts(parent)
   /\ chain' = Append(chain, [parent |-> parent, id |-> newid, body |-> body])
-  /\ UNCHANGED <<snaps, ghost>>
+  /\ UNCHANGED <<snaps, ghost, gone>>
 
 AddVersionRejected(parent, expected) ==
   /\ ~Accepts(parent)
@@ -45,22 +55,37 @@ AddVersionFailed(parent, body, newid) ==
 
 ChildOf(parent) == {i \in DOMAIN chain : chain[i].parent = parent}
 
-(* get_child_version(parent): result is [kind, id, body] *)
-GetChildResult(parent) ==
+(* get_child_version(parent): result is [kind, id, body]; Raw ignores discarding *)
+GetChildRaw(parent) ==
   IF ChildOf(parent) = {} THEN [kind |-> "none", id |-> 0, body |-> "-"]
   ELSE LET i == CHOOSE j \in ChildOf(parent) : TRUE
        IN [kind |-> "version", id |-> chain[i].id, body |-> chain[i].body]
+GetChildResult(parent) ==
+  LET r == GetChildRaw(parent) IN
+  IF r.kind = "version" /\ r.id \in gone THEN [kind |-> "none", id |-> 0, body |-> "-"] ELSE r
 
 AddSnapshot(ver, body) ==
   /\ snaps' = {s \in snaps : s.ver # ver} \cup {[ver |-> ver, body |-> body]}
-  /\ UNCHANGED <<chain, ghost>>
+  /\ UNCHANGED <<chain, ghost, gone>>
+
+(* a backend that holds a single snapshot (git: one file) replaces whatever it had *)
+ReplaceSnapshot(ver, body) ==
+  /\ snaps' = {[ver |-> ver, body |-> body]}
+  /\ UNCHANGED <<chain, ghost, gone>>
 
 (* a backend may keep only some of the stored snapshots (the newest, the last *)
 (* written, ...), but at least one, and it never invents or alters one       *)
 ForgetSnapshot(s) ==
   /\ s \in snaps /\ Cardinality(snaps) > 1
   /\ snaps' = snaps \ {s}
-  /\ UNCHANGED <<chain, ghost>>
+  /\ UNCHANGED <<chain, ghost, gone>>
+
+(* the server discards versions: only versions covered by a snapshot it holds *)
+Discard(S) ==
+  /\ S # {} /\ S \subseteq Ids \ gone
+  /\ \A id \in S : Covered(id)
+  /\ gone' = gone \cup S
+  /\ UNCHANGED <<chain, snaps, ghost>>
 
 -----------------------------------------------------------------------------
 (* every version has a distinct id and a distinct parent, and each version's  *)
@@ -68,4 +93,9 @@ ForgetSnapshot(s) ==
 VersionInvariant ==
   /\ \A i, j \in DOMAIN chain : i # j => chain[i].id # chain[j].id /\ chain[i].parent # chain[j].parent
   /\ \A i \in 2..Len(chain) : chain[i].parent = chain[i - 1].id
+
+(* whatever was discarded, a new replica can still reach the latest state: some stored   *)
+(* snapshot covers every discarded version, so snapshot + the versions after it suffice  *)
+Reconstructible ==
+  gone = {} \/ \E s \in snaps : \A id \in gone : CoveredBy(id, s)
 =============================================================================
